@@ -241,8 +241,8 @@ def world_op(j):
             else:
                 p.write_text("{ this is not json")
         return True
-    if do == "get_data":
-        g = GetFromPaths(config)
+    if do == "get_data" or do == "get_data_all":
+        g = GetFromPaths(config) if do == "get_data" else GetFromAll()
         r = g.get_data(j["sid"], attributes=j.get("attributes") or None, sid_encode=_enc(j.get("enc", "str")))
         out = []
         for k, v in r.items():
@@ -251,8 +251,8 @@ def world_op(j):
             else:
                 out.append([k, None if (v is None and j.get("attributes")) else _jtext(v)])
         return out
-    if do == "getter_paths":
-        g = GetFromPaths(config)
+    if do == "getter_paths" or do == "getter_all":
+        g = GetFromPaths(config) if do == "getter_paths" else GetFromAll()
         recs = []
         enc = j.get("enc", "str")
         for r in g.get(j["s"], attributes=j.get("attributes") or None, sid_encode=_enc(enc)):
